@@ -28,6 +28,7 @@ func init() {
 
 func runC21(c *Ctx) {
 	u, r := c.U, c.R
+	seedfixC21(c)
 	guards := func(in ssa.Instruction) string { return strings.NewReplacer("(&", "(", "!&", "!").Replace(strings.Join(u.GuardStrings(in), " && ")) }
 	isPost := u.CallMatcher(Is("(*HttpClient).post"), false)
 	storeTo := func(field string, pred func(ssa.Value) bool) func(ssa.Instruction) bool {
